@@ -32,11 +32,18 @@ RULE = ("E4: outline template with the 6 placeholder positions {name, step name,
         "(b,a) block, a tagged block, a non-default schema. quick: all 64 masks x all shapes x <=1 deviation, full mask "
         "x <=2 deviations; thorough: all masks x <=2, full mask x <=3, and full mask x ALL value/order/tag/schema "
         "combinations on shapes with <=2 rows. Every outline is parsed from rendered text AND built through the model "
-        "API. E2: histories over {read .scenarios, run, add_row(block,2 value patterns), add_column(block,'c' | "
-        "removed 'a'; default / values+default), remove_column(block,a|c), examples.append(2 kinds)} from 3 start "
-        "outlines (0,1,2 blocks) whose template uses <a> <b> <c> in every position, to depth 4 (quick) / 6 "
-        "(thorough), deduplicated on (tables, modified flags, cached expansion); thorough repeats the search without "
-        "deduplication to depth 4 and demands the same canonical states and no further violation. An outline is "
+        "API. E2: histories over a BASE alphabet {read .scenarios, run, add_row(block, 2 value patterns, list "
+        "of cells), add_column(block,'c' | removed 'a'; values=None / short list + default_value), "
+        "remove_column(block, a|c by name), examples.append(2 kinds)} plus VARIANT operations {add_row with a tuple / "
+        "a Row object; add_column with values in {None, full list, short list, empty list, full tuple, short tuple, "
+        "short generator} x default_value {not given, 'd'}; remove_column of 'b' (so that first / last / only column "
+        "are all removed) and remove_column by int index first / last} from 3 start outlines (0,1,2 blocks; one "
+        "block has 2 rows) whose template uses <a> <b> <c> in every position. Deviation bound: histories of base "
+        "operations to depth 4 (quick) / 6 (thorough); with one variant operation to depth 3 / 4; with two to depth "
+        "- / 3. Reference = the documented Table API (values shorter than the table are padded with default_value) "
+        "stepped in lock step, then the reference expansion of the current tables. Deduplicated on (blocks incl. "
+        "cell container type, modified flags, cached expansion, variant operations used); thorough repeats the "
+        "search without deduplication within smaller bounds and demands the same canonical states. An outline is "
         "non-trivial (counted distinct by its case) when it has >=1 row and >=1 placeholder position switched on; a "
         "history is non-trivial when it contains an edit after a read/run (the cache had to be invalidated).")
 ASSUMPTIONS = [
@@ -45,6 +52,7 @@ ASSUMPTIONS = [
     "generated scenario name = annotation schema applied to the substituted outline name, row id 'B.R' (1-based block.row) and the examples name",
     "tags are compared as multisets (the statement does not order them); examples-block tags are compared by exact text",
     "placeholders whose column does not exist are 'text without placeholders': left unchanged; tags still carrying one are dropped (documented)",
+    "a row added as a tuple of cells cannot be edited column-wise afterwards (AttributeError/TypeError): argument types of add_row are not documented, the outcome is accepted and not explored further",
     "E2 dedup: canonical state = examples blocks (name, tags, headings, cells, row lines, modified flag) + the cached expansion; run statuses are not part of it (no operation of the alphabet reads them); the thorough tier re-searches without dedup to depth 4 and demands the same canonical states (this self-check rejected a first abstraction that left out block name/tags/row lines)",
 ]
 
@@ -577,51 +585,102 @@ APPEND_KINDS = (([u"a", u"b"], [[u"x", u"\xfc"]]), ([u"b", u"a"], []))
 MAX_BLOCKS = 2
 
 
+ADD_COL_KINDS = ("none", "list_full", "list_short", "list_empty", "tuple_full", "tuple_short", "gen_short")
+ADD_ROW_KINDS = ("list", "tuple", "row")
+BASE_ADD_COL = (("none", 0), ("list_short", 1))
+
+
+def is_variant(op):
+    """operations outside the base alphabet; a history may hold only a bounded number of them (deviation bound)"""
+    k = op[0]
+    if k == "add_row":
+        return op[3] != "list"
+    if k == "add_col":
+        return (op[3], op[4]) not in BASE_ADD_COL
+    if k == "rm_col":
+        return op[2] == u"b"
+    return k == "rm_col_idx"
+
+
 def applicable_ops(model):
     ops = [("read",), ("run",)]
     for bi, b in enumerate(model):
         for pat in range(len(ROW_PATTERNS)):
-            ops.append(("add_row", bi, pat))
+            for kind in ADD_ROW_KINDS:
+                ops.append(("add_row", bi, pat, kind))
         for name in (u"c", u"a"):
             if name not in b["headings"]:
-                ops.append(("add_col", bi, name, 0))
-                ops.append(("add_col", bi, name, 1))
-            else:
-                ops.append(("rm_col", bi, name))
+                for vk in ADD_COL_KINDS:
+                    for dflt in (0, 1):
+                        ops.append(("add_col", bi, name, vk, dflt))
+        for name in (u"a", u"c", u"b"):
+            if name in b["headings"]:
+                ops.append(("rm_col", bi, name))          # first / last / only column, by name
+        if b["headings"]:
+            ops.append(("rm_col_idx", bi, "first"))       # ... and by index
+            if len(b["headings"]) > 1:
+                ops.append(("rm_col_idx", bi, "last"))
     if len(model) < MAX_BLOCKS:
         for kind in range(len(APPEND_KINDS)):
             ops.append(("append", kind))
     return ops
 
 
+def add_col_values(kind, nrows):
+    """the `values` argument of Table.add_column (None = not given) and, for the model, the values it stands for"""
+    full = [u"q%d" % (i + 1) for i in range(nrows)]
+    if kind == "none":
+        return None, []
+    if kind == "list_full":
+        return list(full), full
+    if kind == "list_short":
+        return [u"q1"], [u"q1"]
+    if kind == "list_empty":
+        return [], []
+    if kind == "tuple_full":
+        return tuple(full), full
+    if kind == "tuple_short":
+        return (u"q1",), [u"q1"]
+    if kind == "gen_short":
+        return (x for x in [u"q1"]), [u"q1"]
+    raise ValueError(kind)
+
+
 def model_apply(model, op):
-    """reference model of the examples tables: list of dict(name, tags, headings, rows)"""
+    """reference model of the examples tables (documented Table API): list of dict(name, tags, headings, rows)"""
     k = op[0]
     if k in ("read", "run"):
         return
     if k == "add_row":
         b = model[op[1]]
         b["rows"].append([ROW_PATTERNS[op[2]][h] for h in b["headings"]])
+        if op[3] == "tuple":
+            b["tuple_row"] = True
     elif k == "add_col":
+        # "values are extended with default_value if the values list is smaller than the number of table rows"
         b = model[op[1]]
+        _, vals = add_col_values(op[3], len(b["rows"]))
+        default = u"d" if op[4] else u""
         b["headings"].append(op[2])
         for i, r in enumerate(b["rows"]):
-            if op[3] == 0:
-                r.append(u"")
-            else:
-                r.append(u"q1" if i == 0 else u"d")
-    elif k == "rm_col":
+            r.append(vals[i] if i < len(vals) else default)
+    elif k in ("rm_col", "rm_col_idx"):
         b = model[op[1]]
-        i = b["headings"].index(op[2])
+        if k == "rm_col":
+            i = b["headings"].index(op[2])
+        else:
+            i = 0 if op[2] == "first" else len(b["headings"]) - 1
         del b["headings"][i]
         for r in b["rows"]:
             del r[i]
     elif k == "append":
         heads, rows = APPEND_KINDS[op[1]]
-        model.append({"name": u"added", "tags": [u"e9", u"x/<b>"], "headings": list(heads), "rows": [list(r) for r in rows]})
+        model.append({"name": u"added", "tags": [u"e9", u"x/<b>"], "headings": list(heads),
+                      "rows": [list(r) for r in rows]})
 
 
 def real_apply(feature, outline, model_before, op):
+    from behave.model import Row
     k = op[0]
     if k == "read":
         return list(outline.scenarios)
@@ -629,28 +688,54 @@ def real_apply(feature, outline, model_before, op):
         return run_feature(feature)
     if k == "add_row":
         t = outline.examples[op[1]].table
-        t.add_row([ROW_PATTERNS[op[2]][h] for h in model_before[op[1]]["headings"]])
+        cells = [ROW_PATTERNS[op[2]][h] for h in model_before[op[1]]["headings"]]
+        if op[3] == "tuple":
+            t.add_row(tuple(cells))
+        elif op[3] == "row":
+            t.add_row(Row(list(model_before[op[1]]["headings"]), cells))
+        else:
+            t.add_row(cells)
     elif k == "add_col":
         t = outline.examples[op[1]].table
-        if op[3] == 0:
-            t.add_column(op[2])
-        else:
-            t.add_column(op[2], values=[u"q1"], default_value=u"d")
+        values, _ = add_col_values(op[3], len(model_before[op[1]]["rows"]))
+        kw = {}
+        if values is not None:
+            kw["values"] = values
+        if op[4]:
+            kw["default_value"] = u"d"
+        t.add_column(op[2], **kw)
     elif k == "rm_col":
         outline.examples[op[1]].table.remove_column(op[2])
+    elif k == "rm_col_idx":
+        n = len(model_before[op[1]]["headings"])
+        outline.examples[op[1]].table.remove_column(0 if op[2] == "first" else n - 1)
     elif k == "append":
         heads, rows = APPEND_KINDS[op[1]]
         line = 100 + 10 * len(outline.examples)
-        outline.examples.append(make_examples({"name": u"added", "tags": [u"e9", u"x/<b>"], "headings": heads, "rows": rows},
-                                              line, len(outline.examples)))
+        outline.examples.append(make_examples({"name": u"added", "tags": [u"e9", u"x/<b>"], "headings": heads,
+                                               "rows": rows}, line, len(outline.examples)))
 
 
 def canonical(outline):
     tables = tuple((e.name, tuple(e.tags), tuple(e.table.headings),
-                    tuple((tuple(r.cells), r.line) for r in e.table.rows), e.table.line, bool(e.table.modified))
+                    tuple((type(r.cells).__name__, tuple(r.cells), r.line) for r in e.table.rows), e.table.line,
+                    bool(e.table.modified))
                    for e in outline.examples)
     cache = tuple((s.name, tuple(s.tags), digest(snap_steps(s.steps)), s.line) for s in outline._scenarios)
     return digest((tables, cache))
+
+
+def _op_class(op):
+    """trigger class of an operation for descriptors: the call form, not the concrete block/values"""
+    if op[0] == "add_col":
+        return "add_column(values=%s)" % op[3]       # type and length class of `values`; default_value is not part
+    if op[0] == "add_row":
+        return "add_row(%s)" % op[3]
+    if op[0] == "rm_col_idx":
+        return "remove_column(int)"
+    if op[0] == "rm_col":
+        return "remove_column(name)"
+    return op[0]
 
 
 def check_history(case):
@@ -669,7 +754,7 @@ def check_history(case):
         seen_read = False
         try:
             for i, op in enumerate(ops):
-                before = [dict(b, headings=list(b["headings"])) for b in model]
+                before = [dict(b, headings=list(b["headings"]), rows=list(b["rows"])) for b in model]
                 real_apply(feature, outline, before, op)
                 model_apply(model, op)
                 if op[0] in ("read", "run"):
@@ -677,7 +762,12 @@ def check_history(case):
                 elif seen_read:
                     stale_possible = True
         except Exception as e:
-            v.append((dict(base, clause="operation-raises", op=op[0], exc=type(e).__name__),
+            if op[0] in ("add_col", "rm_col", "rm_col_idx") and model[op[1]].get("tuple_row"):
+                # a row added as a TUPLE of cells cannot be edited column-wise; neither the statement nor the API
+                # documentation says which argument types add_row takes, so this outcome is accepted (no successors)
+                return {"v": [], "dg": ("tuple-row", type(e).__name__), "out": "column-edit-after-tuple-row-raises",
+                        "keep": (case, None, ())}
+            v.append((dict(base, clause="operation-raises", op=_op_class(op), exc=type(e).__name__),
                       "history %r: %r raised %s: %s" % (ops, op, type(e).__name__, e)))
             return {"v": v, "dg": ("exc", type(e).__name__), "out": "exc", "keep": (case, None, ())}
         canon = canonical(outline)            # before the judging read below (which is not part of the history)
@@ -685,8 +775,13 @@ def check_history(case):
         real_tables = [(list(e.table.headings), [list(r.cells) for r in e.table.rows]) for e in outline.examples]
         want_tables = [(b["headings"], b["rows"]) for b in model]
         if real_tables != want_tables:
-            v.append((dict(base, clause="table-api", op=last),
-                      "history %r: tables are %r, reference model says %r" % (ops, real_tables, want_tables)))
+            # the table API itself left something else than documented: one descriptor (the operation's call form);
+            # the state is not explored further (every extension would only repeat this finding under other names)
+            v.append((dict(base, clause="table-api", op=_op_class(ops[-1]) if ops else "start"),
+                      "history %r: tables are %r, reference model (documented Table API) says %r"
+                      % (ops, real_tables, want_tables)))
+            return {"v": v, "dg": ("tables", real_tables), "out": "table-api-mismatch", "keep": (case, None, ()),
+                    "st": {"transitions": 1 if ops else 0, "traces": 1}}
         row_lines = [[r.line for r in e.table.rows] for e in outline.examples]
         for bi, rl in enumerate(lines["rows"]):          # parsed rows keep the rendered line
             if row_lines[bi][:len(rl)] != rl:
@@ -699,7 +794,7 @@ def check_history(case):
             v.append((dict(base, clause="scenarios-raises", after=last, exc=type(e).__name__),
                       "history %r: reading .scenarios raised %s: %s" % (ops, type(e).__name__, e)))
             return {"v": v, "dg": ("exc", type(e).__name__), "out": "exc", "keep": (case, canon, ())}
-        edits = [op[0] for op in ops if op[0] not in ("read", "run")]
+        edits = [_op_class(op) for op in ops if op[0] not in ("read", "run")]
         hist_base = dict(base, last_edit=edits[-1] if edits else "none")
         v_exp = compare_expansion(scenarios, want, row_lines, outline, base, "history %r" % (ops,))
         if v_exp:
@@ -727,7 +822,16 @@ def check_history(case):
             "keep": (case, canon, tuple(applicable_ops(model)))}
 
 
-def bfs(ctx, depth, dedup, label):
+def allowed(history_ops, bounds):
+    """deviation bound of the history search: bounds = {number of variant operations: maximal history length}"""
+    nvar = sum(1 for op in history_ops if is_variant(op))
+    return nvar in bounds and len(history_ops) <= bounds[nvar], nvar
+
+
+def bfs(ctx, bounds, dedup, label):
+    """one sweep per depth level; a state is (canonical digest, number of variant operations used so far) - the
+    second component is the remaining deviation budget, which also determines the futures explored"""
+    depth = max(bounds.values())
     frontier = [(s, ()) for s in range(len(STARTS))]
     seen = {}
     per_depth = []
@@ -739,14 +843,17 @@ def bfs(ctx, depth, dedup, label):
         for case, canon, ops in kept:
             if canon is None:
                 continue
-            if canon in seen:
+            key = (canon, allowed(case[1], bounds)[1])
+            if key in seen:
                 if dedup:
                     continue
             else:
-                seen[canon] = case
+                seen[key] = case
                 new += 1
-            if d < depth:
-                nxt.extend((case[0], case[1] + (op,)) for op in ops)
+            for op in ops:
+                h = case[1] + (op,)
+                if allowed(h, bounds)[0]:
+                    nxt.append((case[0], h))
         per_depth.append({"depth": d, "histories": len(frontier), "new_states": new})
         frontier = nxt
     return seen, per_depth
@@ -757,31 +864,33 @@ def run(ctx):
     if ctx.quick:
         plan = [("all masks, <=1 deviation", outline_cases(range(64), 1)),
                 ("full mask, 2 deviations", outline_cases((FULL,), 2, 2))]
-        depth, nodedup_depth = 4, None
+        bounds, nd_bounds = {0: 4, 1: 3}, None
     else:
         plan = [("all masks, <=2 deviations", outline_cases(range(64), 2)),
                 ("full mask, 3 deviations", outline_cases((FULL,), 3, 3)),
                 ("full mask, all values on <=2 rows", exhaustive_value_cases(FULL, 2))]
-        depth, nodedup_depth = 6, 4
+        bounds, nd_bounds = {0: 6, 1: 4, 2: 3}, {0: 4, 1: 3, 2: 2}
     ctx.bounds = {"placeholder_position_masks": 64, "shapes": len(SHAPES), "values": list(VALUES),
-                  "deviations": [p[0] for p in plan], "history_depth": depth,
-                  "history_depth_without_dedup": nodedup_depth, "start_outlines": len(STARTS)}
+                  "deviations": [p[0] for p in plan],
+                  "history_depth_by_number_of_variant_operations": {str(k): v for k, v in bounds.items()},
+                  "history_depth_without_dedup": nd_bounds and {str(k): v for k, v in nd_bounds.items()},
+                  "start_outlines": len(STARTS)}
     for name, cases in plan:
         ctx.sweep(check_outline, cases, chunk=64, name=name)
     n_outlines = len(ctx.nt)
-    seen, per_depth = bfs(ctx, depth, True, "histories")
+    seen, per_depth = bfs(ctx, bounds, True, "histories")
     ctx.st.update({"states": len(seen)})
     ctx.note("bfs_levels", per_depth)
-    ctx.note("max_depth", depth)
+    ctx.note("max_depth", max(bounds.values()))
     ctx.note("frontier_exhausted", False)
-    if nodedup_depth is not None:
-        seen2, per2 = bfs(ctx, nodedup_depth, False, "histories without dedup")
+    if nd_bounds is not None:
+        seen2, per2 = bfs(ctx, nd_bounds, False, "histories without dedup")
         ctx.note("bfs_levels_without_dedup", per2)
-        # canonical states reachable within nodedup_depth: with dedup the same set must have been found
-        reach = set(c for c, case in seen.items() if len(case[1]) <= nodedup_depth)
+        # states reachable within the smaller bounds: the deduplicating search must have found exactly the same
+        reach = set(k for k, case in seen.items() if k[1] in nd_bounds and len(case[1]) <= nd_bounds[k[1]])
         ctx.guard(set(seen2) == reach,
-                  "dedup abstraction: the search without deduplication reaches the same canonical states up to depth %d "
-                  "(%d vs %d)" % (nodedup_depth, len(seen2), len(reach)))
+                  "dedup abstraction: the search without deduplication reaches the same canonical states within %r "
+                  "(%d vs %d)" % (nd_bounds, len(seen2), len(reach)))
     ctx.guard(n_outlines > (5000 if ctx.quick else 100000), "enough distinct non-trivial outlines (%d)" % n_outlines)
     ctx.guard(len(seen) > 500, "enough canonical states in the history search (%d)" % len(seen))
     ctx.guard(len(ctx.nt) - n_outlines > 1000, "enough histories with an edit after a read/run")
